@@ -173,19 +173,33 @@ func (g *gen) genComponent(prefix, manifestName string, withComponents bool) (fi
 	}
 	type condPath struct{ Glob, Expression string }
 	var paths []condPath
-	gatedIncluded := true
-	if r.Intn(3) == 0 {
+	// several conditional paths may be false at the same time; a file is left out if any glob with a false expression matches it
+	pathGate := map[string]bool{}
+	for _, dir := range []string{"gated/", "rbac/", "a-b/"} {
+		if r.Intn(3) != 0 {
+			continue
+		}
 		var expr string
+		inc := true
 		if len(named) > 0 && r.Intn(2) == 0 {
-			expr = "cond." + named[0].Name
-			gatedIncluded = conds[named[0].Name]
+			nc := named[r.Intn(len(named))]
+			expr = "cond." + nc.Name
+			inc = conds[nc.Name]
 		} else {
 			ce := celPool[r.Intn(len(celPool))]
 			expr = ce.Expr
-			gatedIncluded = ce.Truth(&g.ctx, conds)
+			inc = ce.Truth(&g.ctx, conds)
 		}
-		paths = append(paths, condPath{"gated/**", expr})
+		pathGate[dir] = inc
+		paths = append(paths, condPath{dir + "**", expr})
 		g.feature("conditional-path")
+		if !inc {
+			g.feature("conditional-path-false")
+		}
+	}
+	if len(paths) > 1 {
+		g.feature("several-conditional-paths")
+		r.Shuffle(len(paths), func(i, j int) { paths[i], paths[j] = paths[j], paths[i] })
 	}
 
 	// objects
@@ -372,8 +386,10 @@ func (g *gen) genComponent(prefix, manifestName string, withComponents bool) (fi
 				g.feature("document-empty-after-templating")
 			}
 		}
-		if strings.HasPrefix(dir, "gated/") {
-			in.Included = in.Included && gatedIncluded
+		for gd, inc := range pathGate {
+			if strings.HasPrefix(dir, gd) {
+				in.Included = in.Included && inc
+			}
 		}
 		in.File = prefix + strings.TrimSuffix(path, ".gotmpl")
 		in.Text = text
@@ -502,7 +518,8 @@ func generate(r *rand.Rand) *genCase {
 	gc.Phases, gc.Objects, gc.ManifestName = phases, objs, "root-pkg"
 	if multi {
 		g.feature("components")
-		comps := []string{"frontend", "backend"}[:1+r.Intn(2)]
+		// component names where one is a prefix of another must stay separate packages
+		comps := [][]string{{"frontend"}, {"frontend", "backend"}, {"backend", "backend-db"}, {"api-gateway", "api", "frontend"}}[r.Intn(4)]
 		target := ""
 		if r.Intn(3) != 0 {
 			target = comps[r.Intn(len(comps))]
